@@ -40,18 +40,37 @@ func coqNl(n ap.NaturalLanguageValues) string {
 }
 
 // runs one history on the real type; returns final state and Get answers, plus native property checks
-func c19Run(ops []nlOp, rep *Report, idx int) (ap.NaturalLanguageValues, []string) {
+//
+// shared = the text handed to Set/Append/Add is, whenever an entry already holds that text, the very slice stored in
+// that entry - what Get hands out (the caller copies a translation from one tag to another) instead of a fresh copy: the
+// container has value semantics, so the outcome must be the same
+func c19Run(ops []nlOp, rep *Report, idx int, shared bool) (ap.NaturalLanguageValues, []string) {
 	var n ap.NaturalLanguageValues
 	var outs []string
 	for k, o := range ops {
-		before := append(ap.NaturalLanguageValues(nil), n...)
+		before := make(ap.NaturalLanguageValues, len(n)) // deep: a snapshot must not share text storage
+		for i, e := range n {
+			before[i] = ap.LangRefValue{Ref: e.Ref, Value: append(ap.Content(nil), e.Value...)}
+			if e.Value == nil {
+				before[i].Value = nil
+			}
+		}
+		val := ap.Content(o.val)
+		if shared && len(o.val) > 0 {
+			for _, e := range n {
+				if string(e.Value) == o.val {
+					val = e.Value
+					break
+				}
+			}
+		}
 		switch o.kind {
 		case "Set":
-			_ = n.Set(ap.LangRef(o.tag), ap.Content(o.val))
+			_ = n.Set(ap.LangRef(o.tag), val)
 		case "Append":
-			_ = n.Append(ap.LangRef(o.tag), ap.Content(o.val))
+			_ = n.Append(ap.LangRef(o.tag), val)
 		case "Add":
-			n.Add(ap.LangRefValue{Ref: ap.LangRef(o.tag), Value: ap.Content(o.val)})
+			n.Add(ap.LangRefValue{Ref: ap.LangRef(o.tag), Value: val})
 		case "Get":
 			outs = append(outs, coqOptBytes(n.Get(ap.LangRef(o.tag))))
 		}
@@ -126,7 +145,10 @@ func runC19(seed int64, n int, tier string, outDir string) (*Report, error) {
 		alphabet = append(alphabet, nlOp{"Get", t, ""})
 	}
 	emit := func(ops []nlOp, label string, idx int) {
-		st, outs := c19Run(ops, rep, idx)
+		st, outs := c19Run(ops, rep, idx, false)
+		if st2, outs2 := c19Run(ops, rep, idx, true); coqNl(st) != coqNl(st2) || fmt.Sprint(outs) != fmt.Sprint(outs2) {
+			rep.Violate(Violation{Op: "NaturalLanguageValues history, texts shared with existing entries", Input: fmt.Sprint(ops), Expected: "same outcome as with fresh copies of the texts: " + coqNl(st), Observed: coqNl(st2), Index: idx})
+		}
 		parts := make([]string, len(ops))
 		nontriv, hasGet := false, false
 		for i, o := range ops {
@@ -163,6 +185,23 @@ func runC19(seed int64, n int, tier string, outDir string) (*Report, error) {
 		}
 	}
 	rec(nil)
+	// directed: short histories in which texts repeat across tags (so that the shared-storage run really shares):
+	// all histories of length 3 over Set/Append x {en, fr} x {bb, a}, and length 4 ending in a Get
+	var small []nlOp
+	for _, t := range []string{"en", "fr"} {
+		for _, v := range []string{"bb", "a"} {
+			small = append(small, nlOp{"Set", t, v}, nlOp{"Append", t, v})
+		}
+	}
+	for _, o1 := range small {
+		for _, o2 := range small {
+			for _, o3 := range small {
+				rep.Count("shared-text-history")
+				emit([]nlOp{o1, o2, o3, {"Get", "en", ""}, {"Get", "fr", ""}}, "shared texts", idx)
+				idx++
+			}
+		}
+	}
 	bigTags := []string{"-", "en", "fr", "de", ""}
 	for i := 0; i < n; i++ {
 		m := 1 + g.Intn(14)
